@@ -9,7 +9,7 @@ for id in $ids; do
   prop=$(python3 -c "import json;print(json.load(open('$d/meta.json'))['property'])")
   [ -n "$(git -C /repo status --porcelain)" ] && { echo "/repo not clean"; exit 2; }
   git -C /repo apply /verif/$d/patch.diff || { echo "$id: PATCH DOES NOT APPLY"; continue; }
-  ./check $prop > $d/last_check.txt 2>&1; rc=$?
+  VERIF_EVIDENCE_DIR=/verif/work/evidence_seeded ./check $prop > $d/last_check.txt 2>&1; rc=$?
   git -C /repo checkout -- .
   v=$(grep -c "^VIOLATION property=$prop" $d/last_check.txt)
   nf=$(grep -c "no-failing-input-found" $d/last_check.txt)
